@@ -30,6 +30,16 @@ POOL = {'V': ['volt', 'mV', 'uV'], 'T': ['second', 'ms'], '1': ['dimensionless',
 # two user unit names whose MEANING changes from document to document (flavour 0, 1, 2)
 POOL['V'].append('uv_x')
 POOL['T'].append('ut_x')
+# gram with each of the 20 SI prefix names and with integer prefixes: a few per document, all of them across a run
+MASS_PREFIXES = ['yotta', 'zetta', 'exa', 'peta', 'tera', 'giga', 'mega', 'kilo', 'hecto', 'deka', 'deci', 'centi', 'milli',
+                 'micro', 'nano', 'pico', 'femto', 'atto', 'zepto', 'yocto']
+MASS_INT_PREFIXES = ['5', '-7', '1', '-2', '13', '-16']
+
+
+def mass_unit(p):
+    return 'g_' + (p if p in MASS_PREFIXES else ('p' + p).replace('p-', 'm'))
+
+
 FLAVOURS = {'uv_x': [dict(units='volt', prefix='milli'), dict(units='volt', prefix='micro'),
                      dict(units='volt', multiplier='10')],
             'ut_x': [dict(units='second', prefix='milli'), dict(units='second', multiplier='60'),
@@ -38,12 +48,16 @@ PREFIX_POWER = {'yotta': 24, 'zetta': 21, 'exa': 18, 'peta': 15, 'tera': 12, 'gi
                 'deka': 1, 'deci': -1, 'centi': -2, 'milli': -3, 'micro': -6, 'nano': -9, 'pico': -12, 'femto': -15,
                 'atto': -18, 'zepto': -21, 'yocto': -24}
 DIM_OF = {u: d for d, us in POOL.items() for u in us}
+DIM_OF.update({('g_' + q): 'M' for q in ['yotta', 'zetta', 'exa', 'peta', 'tera', 'giga', 'mega', 'kilo', 'hecto', 'deka', 'deci',
+                                         'centi', 'milli', 'micro', 'nano', 'pico', 'femto', 'atto', 'zepto', 'yocto',
+                                         'p5', 'm7', 'p1', 'm2', 'p13', 'm16']})
 SCALE = {'volt': Fraction(1), 'mV': Fraction(1, 1000), 'uV': Fraction(1, 10 ** 6), 'second': Fraction(1),
          'ms': Fraction(1, 1000), 'dimensionless': Fraction(1), 'percent': Fraction(1, 100), 'ub': Fraction(1),
          'kub': Fraction(1000), 'ampere': Fraction(1), 'kilogram': Fraction(1), 'metre': Fraction(1),
+         'gram': Fraction(1, 1000),
          # CellML 5.2.7: multiplier * (prefix * unit) ** exponent
          'm2': Fraction(1), 'half_m2': Fraction(1, 2), 'quarter_cm2': Fraction(1, 4) * Fraction(1, 100) ** 2}
-BUILTIN_USED = ['volt', 'second', 'dimensionless', 'ampere', 'kilogram', 'metre']
+BUILTIN_USED = ['volt', 'second', 'dimensionless', 'ampere', 'kilogram', 'metre', 'gram']
 
 
 def _child(units, prefix=None, exponent=None, multiplier=None, offset=None):
@@ -54,8 +68,8 @@ def _def(name, children=None, base=None):
     return {'name': name, 'base': base, 'children': children or []}
 
 
-def unit_defs(flavour=0):
-    return [_def(n, [_child(**FLAVOURS[n][flavour % 3])]) for n in sorted(FLAVOURS)] + [
+def unit_defs(flavour=0, mass=()):
+    return [_def(mass_unit(q), [_child('gram', prefix=q)]) for q in mass] + [_def(n, [_child(**FLAVOURS[n][flavour % 3])]) for n in sorted(FLAVOURS)] + [
             _def('rt_s', [_child('second', exponent='0.5')]),
             _def('rt_ms', [_child('second', prefix='milli', exponent='0.5')]),
             _def('s15', [_child('second', exponent='1.5')]),
@@ -551,6 +565,11 @@ class Gen(object):
     def __init__(self, seed, ncomp=None, floor_fns=False, case_names=False, flavour=None):
         self.rng = random.Random(seed)
         self.flavour = self.rng.randrange(3) if flavour is None else flavour
+        # three SI prefix names (rotating with the seed: every name within 7 consecutive documents) and an integer one
+        self.mass = [MASS_PREFIXES[(3 * seed + k) % len(MASS_PREFIXES)] for k in range(3)] + \
+                    [MASS_INT_PREFIXES[seed % len(MASS_INT_PREFIXES)]]
+        self.pool = {k: list(v) for k, v in POOL.items()}
+        self.pool['M'] = [mass_unit(q) for q in self.mass]
         self.floor_fns = floor_fns
         self.case_names = case_names
         self.n = ncomp or self.rng.randint(2, 7)
@@ -634,7 +653,7 @@ class Gen(object):
                 return None
             cur_v[a] = 'out'
             lname = cur_v['name'] if self.rng.random() < 0.6 else self.rng.choice(['p', 'q', 'w', 'x', 'y', 'z', 'u'])
-            units = cur_v['units'] if self.rng.random() < 0.45 else self.rng.choice(POOL[cur_v['dim']])
+            units = cur_v['units'] if self.rng.random() < 0.45 else self.rng.choice(self.pool[cur_v['dim']])
             nv = self.new_var(nxt, lname, units, 'import')
             nv[b] = 'in'
             nv['owner'] = list(key0)
@@ -649,7 +668,7 @@ class Gen(object):
         cands = [v for v in avail if v['dim'] == dim]
         if cands and self.rng.random() < 0.75:
             return ci(self.rng.choice(cands)['name'])
-        return cn(self.rng.choice(NUMS), self.rng.choice(POOL[dim]))
+        return cn(self.rng.choice(NUMS), self.rng.choice(self.pool[dim]))
 
     def expr(self, c, dim, avail, depth):
         r = self.rng
@@ -659,7 +678,7 @@ class Gen(object):
             imp = [v for v in avail if v['dim'] == d2 and v.get('owner')]
             num = ci(r.choice(imp)['name']) if imp else self.leaf(c, d2, avail)
             a = ['divide', ['times', cn(r.choice(['3', '7', '11']), 'dimensionless'), num],
-                 cn(r.choice(NUMS), r.choice(POOL[d2]))]
+                 cn(r.choice(NUMS), r.choice(self.pool[d2]))]
             if f == 'rem':
                 return ['rem', a, cn(r.choice(['2', '3']), 'dimensionless')]
             return [f, a]
@@ -670,7 +689,7 @@ class Gen(object):
             # differences only against a number: every variable keeps a positive coefficient, so SymPy cannot cancel
             # a sum to the bare number 0 (which the unit-fix pass refuses in a dimensional context)
             if r.random() < 0.3:
-                return ['minus', self.expr(c, dim, avail, depth - 1), cn(r.choice(NUMS), r.choice(POOL[dim]))]
+                return ['minus', self.expr(c, dim, avail, depth - 1), cn(r.choice(NUMS), r.choice(self.pool[dim]))]
             return ['plus'] + [self.expr(c, dim, avail, depth - 1) for _ in range(r.choice([2, 2, 3]))]
         if k < 0.5:
             args = [self.expr(c, '1', avail, depth - 1), self.expr(c, dim, avail, depth - 1)]
@@ -678,7 +697,7 @@ class Gen(object):
             return ['times'] + args
         if k < 0.7:
             if dim == '1':
-                d2 = r.choice(['V', 'T', 'U', '1', 'A', 'H', 'Q', 'N'])
+                d2 = r.choice(['V', 'T', 'U', '1', 'A', 'H', 'Q', 'N', 'M'])
                 return ['divide', self.expr(c, d2, avail, depth - 1), self.pos(c, d2, avail)]
             return ['divide', self.expr(c, dim, avail, depth - 1), self.pos(c, '1', avail)]
         if k < 0.8 and dim == '1':
@@ -692,7 +711,7 @@ class Gen(object):
         if self.floor_fns and dim == '1':
             d2 = r.choice(['V', 'T', 'U'])
             f = r.choice(['floor', 'ceiling', 'rem'])
-            a = ['divide', self.leaf(c, d2, avail), cn(r.choice(NUMS), r.choice(POOL[d2]))]
+            a = ['divide', self.leaf(c, d2, avail), cn(r.choice(NUMS), r.choice(self.pool[d2]))]
             if f == 'rem':
                 return ['rem', a, cn(r.choice(['2', '3']), 'dimensionless')]
             return [f, a]
@@ -719,20 +738,20 @@ class Gen(object):
 
     def pos(self, c, dim, avail):
         """a denominator that cannot vanish: a positive number"""
-        return cn(self.rng.choice(NUMS), self.rng.choice(POOL[dim]))
+        return cn(self.rng.choice(NUMS), self.rng.choice(self.pool[dim]))
 
     def build(self):
         r = self.rng
         tc = r.choice(self.names)
-        tvar = self.new_var(tc, r.choice(['t', 'time']), r.choice(POOL['T']), 'time')
+        tvar = self.new_var(tc, r.choice(['t', 'time']), r.choice(self.pool['T']), 'time')
         owned = []          # (comp, var) defined so far (importable)
         order = list(self.names)
         r.shuffle(order)
         for c in order:
             nown = r.randint(1, 4)
             for j in range(nown):
-                dim = r.choice(['V', 'V', 'T', '1', 'U', 'A', 'H', 'Q', 'N'])
-                units = r.choice(POOL[dim])
+                dim = r.choice(['V', 'V', 'T', '1', 'U', 'A', 'H', 'Q', 'N', 'M'])
+                units = r.choice(self.pool[dim])
                 kind = r.choice(['state', 'const', 'comp', 'comp'])
                 base = r.choice(['v', 'x', 'y', 'g', 'k', 'a', 'b', 'm', 'h'])
                 # imports for this definition
@@ -758,7 +777,7 @@ class Gen(object):
                         lt = self.import_var(tc, tvar, c)
                         if lx is not None and lt is not None:
                             rhs = ['plus', rhs, ['times', ['diff', ci(lx['name']), ci(lt['name'])],
-                                                 cn(r.choice(NUMS), r.choice(POOL['T']))]]
+                                                 cn(r.choice(NUMS), r.choice(self.pool['T']))]]
                     self.maths[c].append(['eq', ci(v['name']), rhs])
                     v['defined'] = True
                 else:
@@ -815,7 +834,7 @@ class Gen(object):
             kind = r.choice(['const', 'comp', 'mixed'])
             seedv = None
             if kind != 'const':
-                seedv = self.new_var(c, 'seed', r.choice(POOL[dim]), 'const', init=r.choice(NUMS))
+                seedv = self.new_var(c, 'seed', r.choice(self.pool[dim]), 'const', init=r.choice(NUMS))
                 owned.append((c, seedv))
             for lo, up in pairs:
                 names = [lo, up]
@@ -824,15 +843,15 @@ class Gen(object):
                     if n in {v['name'] for v in self.vars[c]}:
                         continue
                     if kind == 'const' or (kind == 'mixed' and r.random() < 0.5):
-                        v = self.new_var(c, n, r.choice(POOL[dim]), 'const', init=r.choice(NUMS))
+                        v = self.new_var(c, n, r.choice(self.pool[dim]), 'const', init=r.choice(NUMS))
                     else:
-                        v = self.new_var(c, n, r.choice(POOL[dim]), 'comp')
+                        v = self.new_var(c, n, r.choice(self.pool[dim]), 'comp')
                         self.maths[c].append(['eq', ci(v['name']), ['times', cn(r.choice(NUMS), 'dimensionless'),
                                                                     ci(seedv['name'])]])
                     members.append(v)
                     owned.append((c, v))
             if len(members) >= 2:
-                tot = self.new_var(c, 'total', r.choice(POOL[dim]), 'comp')
+                tot = self.new_var(c, 'total', r.choice(self.pool[dim]), 'comp')
                 self.maths[c].append(['eq', ci(tot['name']), ['plus'] + [ci(v['name']) for v in members]])
                 owned.append((c, tot))
             eqs = self.maths[c]
@@ -901,7 +920,7 @@ class Gen(object):
             r.shuffle(maps)
             conns.append({'c1': c1, 'c2': c2, 'maps': maps})
         r.shuffle(conns)
-        doc = {'model_cmeta': None, 'units': unit_defs(self.flavour), 'comps': comps, 'groups': groups, 'conns': conns,
+        doc = {'model_cmeta': None, 'units': unit_defs(self.flavour, self.mass), 'comps': comps, 'groups': groups, 'conns': conns,
                'flows': [list(x) for lst in self.pairs.values() for x in lst]}
         r.shuffle(doc['units'])
         order = default_order(doc)
@@ -1408,6 +1427,21 @@ def rename_expr(e, names):
     return [e[0]] + [rename_expr(a, names) for a in e[1:]]
 
 
+CELLML_BUILTINS = {'ampere', 'becquerel', 'candela', 'celsius', 'coulomb', 'dimensionless', 'farad', 'gram', 'gray', 'henry',
+                   'hertz', 'joule', 'katal', 'kelvin', 'kilogram', 'liter', 'litre', 'lumen', 'lux', 'meter', 'metre',
+                   'mole', 'newton', 'ohm', 'pascal', 'radian', 'second', 'siemens', 'sievert', 'steradian', 'tesla', 'volt',
+                   'watt', 'weber'}
+
+
+def lookalike_units(doc, u, k):
+    """an UNDEFINED units name that a unit library could resolve by itself from the defined name u: plural, SI-prefixed
+    (long and short), other case; the k-th admissible one"""
+    defined = {d['name'] for d in doc['units']} | CELLML_BUILTINS
+    cands = [u + 's', 'k' + u, 'milli' + u, 'm' + u, u.swapcase(), u.capitalize(), 'kilo' + u, u + 'es']
+    cands = [c for c in cands if c not in defined and c != u]
+    return cands[k % len(cands)] if cands else 'nosuchunit'
+
+
 def fault_sites(doc):
     """every (class, site) applicable to this valid document"""
     out = []
@@ -1418,6 +1452,7 @@ def fault_sites(doc):
         out.append(['duplicate_component', i])
         for j, v in enumerate(c['vars']):
             out.append(['undefined_variable_units', i, j])
+            out.append(['undefined_variable_units', i, j, 'lookalike'])
             if v.get('init') is not None and v['role'] == 'const':
                 out.append(['initial_value_and_equation', i, j])
         for mi, m in enumerate(c['maths']):
@@ -1437,6 +1472,8 @@ def fault_sites(doc):
                 for li in range(nl):
                     lk = expr_leaves(q[2])[li][0]
                     out.append(['undefined_identifier' if lk == 'id' else 'undefined_number_units', i, mi, qi, li])
+                    if lk == 'unit':
+                        out.append(['undefined_number_units', i, mi, qi, li, 'lookalike'])
     for i, k in enumerate(doc['conns']):
         out.append(['missing_component', i, 1])
         out.append(['missing_component', i, 2])
@@ -1502,7 +1539,8 @@ def apply_fault(doc, f):
         if d.get('order'):
             d['order'].append(['comp', len(d['comps']) - 1])
     elif k == 'undefined_variable_units':
-        d['comps'][f[1]]['vars'][f[2]]['units'] = 'nosuchunit'
+        v = d['comps'][f[1]]['vars'][f[2]]
+        v['units'] = lookalike_units(d, v['units'], f[1] + f[2]) if len(f) > 3 else 'nosuchunit'
     elif k == 'initial_value_and_equation':
         c = d['comps'][f[1]]
         v = c['vars'][f[2]]
@@ -1539,7 +1577,10 @@ def apply_fault(doc, f):
         if k == 'undefined_identifier':
             q[2] = replace_leaf(q[2], f[4], lambda e: ci('nosuchvar'))
         else:
-            q[2] = replace_leaf(q[2], f[4], lambda e: cn(e[1], 'nosuchunit'))
+            if len(f) > 5:
+                q[2] = replace_leaf(q[2], f[4], lambda e: cn(e[1], lookalike_units(d, e[2], f[2] + f[3] + f[4])))
+            else:
+                q[2] = replace_leaf(q[2], f[4], lambda e: cn(e[1], 'nosuchunit'))
     elif k == 'missing_component':
         d['conns'][f[1]]['c%d' % f[2]] = 'Nowhere'
     elif k == 'missing_variable':
@@ -1702,6 +1743,10 @@ def observe(path):
     rec['states'] = q(lambda: [v.name for v in model.get_state_variables()])
     rec['derived'] = q(lambda: [v.name for v in model.get_derived_quantities()])
     rec['derivatives'] = q(lambda: [strip(str(v)) for v in model.get_derivatives()])
+    # the non-default variants that return lists: same document => the same list in every process
+    rec['states_unsorted'] = q(lambda: [v.name for v in model.get_state_variables(sort=False)])
+    rec['derived_unsorted'] = q(lambda: [v.name for v in model.get_derived_quantities(sort=False)])
+    rec['derivatives_unsorted'] = q(lambda: [strip(str(v)) for v in model.get_derivatives(sort=False)])
     def outputs():
         return model.get_derivatives() + model.get_derived_quantities()
     rec['eqs_for'] = q(lambda: [strip(str(e)) for e in model.get_equations_for(outputs())])
